@@ -26,7 +26,7 @@ def build_menu(w, sc):
         m.append(("none",))
     where = {}
     for p in ex.pools:
-        for c in p.active_containers + p.suspending_containers + p.suspended_containers:
+        for c in list(p.active_containers) + list(p.suspending_containers) + list(p.suspended_containers):
             where[c.container_id] = p.pool_id
     for cid in list(w.key_of_cid)[-3:]:
         m.append(("suspend", cid, where.get(cid, 0)))
@@ -139,6 +139,88 @@ def probe_fill(w, sc):
         if w.ended:
             return
     w.boundary_checks()
+
+
+def mass_scenarios(tier):
+    """n two-operator containers in one pool, ALL suspended in the tick they reach their boundary (write-outs of 2 and 4
+    ticks: n containers are writing out at the same time), everything handed back is re-assigned and runs to the end; and
+    the same in waves (n/8 per tick). n follows the constants of the executor sources (mc/scale.py)."""
+    from .. import scale as _scale
+    n, info = _scale.size(["executor/"], 16 if tier == "quick" else 48, 3000, factor=1)
+    n += 24
+    out = []
+    for alloc, waves in ((40, 1), (80, 1), (40, 8)):
+        pipes = [dict(prio="B", arrival=(i * waves) // n, alloc=alloc, cpu=1, parents=[[], [0]],
+                      ops=[[dict(cpu=1.0, scaling="const", mem=0.25, read=0)], [dict(cpu=2.0, scaling="const", mem=0.25, read=0)]]) for i in range(n)]
+        out.append(dict(name=f"F2-mass-n{n}-a{alloc}-w{waves}", tps=1, pools=1, cpus=n, ram=float(alloc * n), overcommit=False, multi=True,
+                        horizon=waves + 16, pipelines=pipes, mass=True))
+    return out
+
+
+def mass_run(sc):
+    """default policy: assign whatever is assignable (scripted size); suspend every container the moment it is suspendable,
+    once; no choices"""
+    w = World(sc)
+    w.all_index = {p: i for i, (p, _, _) in enumerate(w.all_pipes)}
+    try:
+        arr = {}
+        for i, ps in enumerate(sc["pipelines"]):
+            arr.setdefault(ps["arrival"], []).append(i)
+        suspended_once = set()
+        for t in range(sc["horizon"]):
+            if sc.get("straddle") and not w.pipelines and t not in arr:
+                w.exec_phase([], [])      # idling until the scripted moment
+                if w.ended:
+                    break
+                continue
+            w.arrive(arr.get(t, []))
+            w.boundary_checks()
+            pool = w.executor.pools[0]
+            sus = [Suspend(c.container_id, 0) for c in pool.active_containers if c.container_id not in suspended_once and c.can_suspend_container()]
+            suspended_once |= {s_.container_id for s_ in sus}
+            asg = []
+            for p in w.pipelines:
+                ops = [op for op, s_ in p.runtime_status().operator_states.items() if s_.value in (P, F)]
+                if ops:
+                    spec = sc["pipelines"][w.all_index[p]]
+                    a = w.make_assignment(ops, 1, spec["alloc"], 0)
+                    if a is None:
+                        break
+                    asg.append(a)
+            if w.ended:
+                break
+            w.exec_phase(sus, asg)
+            if w.ended:
+                break
+            w.boundary_checks()
+        if not w.ended:
+            for p in w.pipelines:
+                if not p.runtime_status().is_pipeline_successful():
+                    w.flag({"C10", "C03", "C09"}, "work-not-finished-after-suspension", f"{p.pipeline_id}: {[s_.value for s_ in p.runtime_status().operator_states.values()]} at horizon {sc['horizon']}")
+                    break
+    finally:
+        w.close()
+    return w
+
+
+def straddle_scenarios(tier):
+    """a suspension whose write-out (20 ticks) straddles tick c of the run, for every new constant c of the executor sources
+    (periodic housekeeping 'every c ticks'), and for c = 64 otherwise; the run idles until then"""
+    from .. import scale as _scale
+    cs = sorted({int(v) for f, v in _scale.new_constants() if "executor/" in f and 32 <= v <= 2_300_000}) or [64]
+    out = []
+    for c in cs[:4]:
+        pipes = [dict(prio="B", arrival=max(0, c - 7), alloc=40, cpu=2, parents=[[], [0]],
+                      ops=[[dict(cpu=0.1, scaling="const", mem=0.25, read=0)], [dict(cpu=0.2, scaling="const", mem=0.25, read=0)]])]
+        out.append(dict(name=f"F2-straddle-{c}", tps=10, pools=1, cpus=8, ram=64.0, overcommit=False, multi=True, horizon=c + 40, pipelines=pipes, mass=True, straddle=True))
+    return out
+
+
+def mass_work(sc):
+    class _Ch:
+        choices = []
+    w = mass_run(sc)
+    return f1.summarize(sc, _Ch, w)
 
 
 def snapshot(w):
